@@ -2,7 +2,7 @@
 import z3
 from symx.core import Ctx, SymInt, T, model_int
 from symx import loader
-from symx.poly import PolyInt, SE, sympy_to_z3
+from symx.poly import PolyInt, SE, sympy_to_z3, congruence_witness
 
 PID = "C12"
 TECHNIQUE = 'the real field kernels and Element.add run on integer-polynomial proxies; z3 decides the cross-multiplied Edwards-law identities (with sympy cofactor certificates modulo the curve equations) at the real 255-bit constants'
@@ -55,6 +55,21 @@ def _cex(m):
     return {n: model_int(m, z3.Int(n), 1) for n in "x1 y1 z1 x2 y2 z2".split()}
 
 
+def _field_identities(J, r, prefix, Q, kw, items):
+    """the laws are identities in the field GF(Q).  The kernels run with `% Q` erased, so an identity normally holds over Z;
+    when the code uses constants reduced mod Q at import time (2d mod Q, ...) it holds over Z only up to a multiple of Q:
+    that multiple K (an integer polynomial) is computed and z3 checks  lhs == rhs + Q*K  as polynomials over Z"""
+    for label, lhs, rhs in items:
+        try:
+            K = congruence_witness(lhs, rhs, Q)
+        except Exception:
+            K = 0
+        if K is None or (isinstance(K, int) and K == 0):
+            J.claim(r, "%s: %s" % (prefix, label), lhs == rhs, **kw)
+        else:
+            J.claim(r, "%s: %s  (mod Q: lhs = rhs + Q*K)" % (prefix, label), lhs == rhs + Q * K, **kw)
+
+
 def job_unified(J):
     J.default_fallback = ("kernels", dict(x1=1, y1=1, z1=1, x2=1, y2=1, z2=1))
     E = loader.MODS["ed25519_basic"]
@@ -74,10 +89,11 @@ def job_unified(J):
         X3, Y3, Z3, T3 = [T(c) for c in out]
         x1, y1, z1, x2, y2, z2 = [v[n].t for n in "x1 y1 z1 x2 y2 z2".split()]
         t = d * x1 * x2 * y1 * y2
-        J.claim(r, "add: X3 (1 + d x1x2y1y2) = Z3 (x1y2 + x2y1)", X3 * (1 + t) == Z3 * (x1 * y2 + x2 * y1), **kw)
-        J.claim(r, "add: Y3 (1 - d x1x2y1y2) = Z3 (y1y2 + x1x2)", Y3 * (1 - t) == Z3 * (y1 * y2 + x1 * x2), **kw)
-        J.claim(r, "add: T3 Z3 = X3 Y3", T3 * Z3 == X3 * Y3, **kw)
-        J.claim(r, "add: Z3 = 4 z1^2 z2^2 (1 - d x1x2y1y2)(1 + d x1x2y1y2)", Z3 == 4 * z1 * z1 * z2 * z2 * (1 - t) * (1 + t), **kw)
+        _field_identities(J, r, "add", E.Q, kw, (
+            ("X3 (1 + d x1x2y1y2) = Z3 (x1y2 + x2y1)", X3 * (1 + t), Z3 * (x1 * y2 + x2 * y1)),
+            ("Y3 (1 - d x1x2y1y2) = Z3 (y1y2 + x1x2)", Y3 * (1 - t), Z3 * (y1 * y2 + x1 * x2)),
+            ("T3 Z3 = X3 Y3", T3 * Z3, X3 * Y3),
+            ("Z3 = 4 z1^2 z2^2 (1 - d x1x2y1y2)(1 + d x1x2y1y2)", Z3, 4 * z1 * z1 * z2 * z2 * (1 - t) * (1 + t))))
         # vacuity twin: a deliberately wrong law must be refuted
         rr, m, _ = ctx.solve(z3.Not(X3 * (1 - t) == Z3 * (x1 * y2 + x2 * y1)), timeout_ms=60000)
         J.claim(r, "twin: the wrong law X3(1 - dt) = Z3(..) is refutable (solver is not vacuous)", rr == "sat", **kw)
@@ -106,11 +122,11 @@ def job_class_add(J, cls_name):
         X3, Y3, Z3, T3 = [T(c) for c in res.XYTZ]
         x1, y1, z1, x2, y2, z2 = [v[n].t for n in "x1 y1 z1 x2 y2 z2".split()]
         t = d * x1 * x2 * y1 * y2
-        J.claim(r, "%s.add: X3 (1 + d x1x2y1y2) = Z3 (x1y2 + x2y1)" % cls_name, X3 * (1 + t) == Z3 * (x1 * y2 + x2 * y1), **kw)
-        J.claim(r, "%s.add: Y3 (1 - d x1x2y1y2) = Z3 (y1y2 + x1x2)" % cls_name, Y3 * (1 - t) == Z3 * (y1 * y2 + x1 * x2), **kw)
-        J.claim(r, "%s.add: T3 Z3 = X3 Y3" % cls_name, T3 * Z3 == X3 * Y3, **kw)
-        J.claim(r, "%s.add: Z3 = 4 z1^2 z2^2 (1 - d x1x2y1y2)(1 + d x1x2y1y2)  (never 0 on curve points)" % cls_name,
-                Z3 == 4 * z1 * z1 * z2 * z2 * (1 - t) * (1 + t), **kw)
+        _field_identities(J, r, "%s.add" % cls_name, E.Q, kw, (
+            ("X3 (1 + d x1x2y1y2) = Z3 (x1y2 + x2y1)", X3 * (1 + t), Z3 * (x1 * y2 + x2 * y1)),
+            ("Y3 (1 - d x1x2y1y2) = Z3 (y1y2 + x1x2)", Y3 * (1 - t), Z3 * (y1 * y2 + x1 * x2)),
+            ("T3 Z3 = X3 Y3", T3 * Z3, X3 * Y3),
+            ("Z3 = 4 z1^2 z2^2 (1 - d x1x2y1y2)(1 + d x1x2y1y2)  (never 0 on curve points)", Z3, 4 * z1 * z1 * z2 * z2 * (1 - t) * (1 + t))))
 
 
 def _cert_claims(J, ctx, name, goals, premises, gens_order):
@@ -132,8 +148,17 @@ def _cert_claims(J, ctx, name, goals, premises, gens_order):
         except Exception as e:
             qs, rem = None, e
         if qs is None or rem != 0:
-            J.claim(ctx, "%s: %s vanishes modulo the curve equations (no certificate: remainder %s)" % (name, label, str(rem)[:60]),
-                    False, cex=_cex, oracle="kernels")
+            # second method: the code may use constants that are functions of d reduced mod Q at import time (2d mod Q, ...);
+            # then the identity only holds modulo Q.  Find cofactors over GF(Q) with the concrete d, lift to Z
+            # (goal - sum a_i c_i = Q*K with an integer polynomial K) and let z3 verify that identity over Z.
+            cert = _modq_certificate(ctx, f, premises, [g for g in gens_order if g != "d"])
+            if cert is None:
+                J.claim(ctx, "%s: %s vanishes modulo the curve equations (no certificate: remainder %s)" % (name, label, str(rem)[:60]),
+                        False, cex=_cex, oracle="kernels")
+                continue
+            gZb, rhsb, sizes = cert
+            J.claim(ctx, "%s: %s = sum a_i c_i + Q*K  (certificate over GF(Q) lifted to Z; cofactor sizes %s)" % (name, label, sizes),
+                    gZb == rhsb, cex=_cex, oracle="kernels")
             continue
         rhs = z3.IntVal(0)
         for a, c in zip(qs, premZ):
@@ -144,12 +169,59 @@ def _cert_claims(J, ctx, name, goals, premises, gens_order):
             gZ == rhs, cex=_cex, oracle="kernels")
 
 
+def _modq_certificate(ctx, goal, premises, gen_names):
+    import sympy as sp
+    E = loader.MODS["ed25519_basic"]
+    Q = E.Q
+    fn, two = ctx.data["kernel"]
+    names = "x1 y1 z1 x2 y2 z2".split()
+    s = {n: sp.Symbol(n) for n in names}
+    SE.MODULUS = Q
+    vs, P1, P2 = _points(E, lambda n: SE(s[n]))
+    try:
+        outS = fn(P1, P2) if two else fn(P1)          # concrete d and whatever constants the module derived from it
+    except EngineUnsupported:
+        return None
+    dred = E.d % Q
+    ns = dict(s)
+    ns.update(zip(("X3", "Y3", "Z3", "T3"), [c.e for c in outS]))
+    ns["d"] = sp.Integer(dred)
+    gens = [s[g] for g in gen_names]
+    g = sp.expand(goal(ns))
+    prem = [sp.expand(f(ns)) for f in premises]
+    try:
+        qs, rem = sp.reduced(g, prem, *gens, order="lex", modulus=Q)
+    except Exception:
+        return None
+    if rem != 0:
+        return None
+    qs = [sp.expand(a) for a in qs]
+    diff = sp.expand(g - sum(a * c for a, c in zip(qs, prem)))
+    if diff != 0:
+        P = sp.Poly(diff, *gens)
+        if any(int(c) % Q for c in P.coeffs()):
+            return None
+        K = sp.Poly.from_dict({m: int(c) // Q for m, c in P.terms()}, *gens).as_expr()
+    else:
+        K = sp.Integer(0)
+    env = {n: z3.Int(n) for n in names}
+    nsZ = dict(ctx.data["nsZ"])
+    nsZ["d"] = z3.IntVal(dred)
+    rhs = z3.IntVal(Q) * sympy_to_z3(K, env) if K != 0 else z3.IntVal(0)
+    for a, f in zip(qs, premises):
+        if a != 0:
+            rhs = rhs + sympy_to_z3(a, env) * f(nsZ)
+    sizes = [len(sp.Poly(a, *gens).terms()) if a != 0 else 0 for a in qs]
+    return goal(nsZ), rhs, sizes
+
+
 def _both_runs(ctx, E, fn, two):
     """run the real kernel on z3 polynomial proxies and on sympy proxies"""
     import sympy as sp
     names = "x1 y1 z1 x2 y2 z2".split()
     PolyInt.MODULUS = E.Q
     SE.MODULUS = E.Q
+    ctx.data["kernel"] = (fn, two)
     vz, P1, P2 = _points(E, lambda n: PolyInt(z3.Int(n)))
     npc = len(ctx.pc)
     outZ = fn(P1, P2) if two else fn(P1)
@@ -300,7 +372,14 @@ def job_ladder(J):
     for r in J.explore(h):
         J.reach(r)
         kw = dict(cex=lambda m: dict(x1=1, y1=1, z1=1, x2=1, y2=1, z2=1), oracle="kernels")
-        if r.kind != "ret":
+        if r.kind != "ret" or not hasattr(r.value, "k"):
+            if not any(c[0] == "rec" for c in calls):
+                # an iterative ladder (a loop over the bits of n) has no recursive call to put the induction hypothesis on;
+                # proving it needs a loop invariant this job cannot synthesise: undecided, not a violation
+                J.notes.append("scalarmult_element is not the recursive double-and-add this induction step is written for")
+                J.obligations.append(dict(name="ladder step: scalarmult_element has the recursive shape n -> n>>1 (needed for the "
+                                               "induction step; an iterative ladder is outside this job's reach)", verdict="unknown", secs=0.0))
+                return
             J.claim(r, "ladder step does not raise for 0 <= n < L", False, **kw)
             continue
         k, n = r.ctx.data["w"]
